@@ -22,11 +22,12 @@ PROP = {
     "lean_modules": ["AxVerif.Model.Pool", "AxVerif.Lemmas.Pool", "AxVerif.Model.Fuzz", "AxVerif.Model.Bytes"],
     "rule": "pool: job sequences (blocking calls and FIFO bursts of ok / err / panicking jobs) on pools of 1-8 workers through the "
             "task runner of a real Database; non-trivial = a sequence with an err or panicking job or a burst longer than the pool. "
-            "fuzz: one self-contained sequence of 12-300 statements per case on a fresh pre-populated database (1-3 tables of random "
+            "fuzz: one self-contained sequence of 12-300 statements per case (one of 32 themes) on a fresh pre-populated database (1-3 tables of random "
             "column types, pool size 1-3, autocommit or one session): strings (random characters, lossily decoded random bytes, token "
             "soups of the lexer's vocabulary, truncated and mutated valid statements, DDL, oversized literals, long garbage runs, nesting "
-            "to depth 2000, 40-300 versions of one row) and statements of a small grammar (unknown names, wrong types, NULL arguments, "
-            "/0, overflow, functions, aggregates, CASE, sub-queries, HAVING, DML); after every statement: no panic in any thread, a "
+            "to depth 2000, 40-300 versions of one row, multi-row and self-referencing inserts, statements that fail on a late row) and "
+            "statements of a small grammar (unknown names, wrong types, NULL arguments, /0, overflow, functions, aggregates, CASE, "
+            "sub-queries, HAVING, DML); after every statement: no panic in any thread, a "
             "probe SELECT answers on the same session and database, and a dump of all tables is unchanged if the statement failed. "
             "non-trivial = every case except the `valid` theme (plain valid statements); distinct = distinct case line. "
             "Each case belongs to one theme; 25 % of the cases come from the themes that are regions of listed findings.",
@@ -56,8 +57,8 @@ TEXT = {
     "text": "Partial: Lean theorems for the worker pool every statement runs on — for every pool size, job sequence and schedule: every "
             "job is answered exactly once with its own answer (a panicking job with an error), workers are never lost, a non-empty queue "
             "with an idle worker always has an enabled step, and any schedule terminates within 2·|queue|+|running| steps with all "
-            "jobs answered; the shipped worker loop (no catch_unwind) is shown to lose every job submitted after pool-size panics, and "
-            "was fixed. The pool model is tied to the real task runner of a Database by ~370 job sequences per run. The statement "
+            "jobs answered; the shipped worker loop (no catch_unwind) is characterised exactly for every schedule (job i is answered iff "
+            "fewer than pool-size panicking jobs precede it — every later caller blocks forever), and was fixed. The pool model is tied to the real task runner of a Database by ~370 job sequences per run. The statement "
             "pipeline is covered by correspondence only: ~9 000 hostile strings and grammar statements per run through "
             "Database::execute / Session::execute with panic capture in every thread, liveness probe and state comparison, against a "
             "total Lean model that predicts the outcome class where the schema decides it.",
